@@ -497,6 +497,45 @@ fn run(ctx: &RunCtx) -> Report {
     } else if !all_done {
         report.violate("hang", "lookup-did-not-finish", "a lookup did not finish within 180 s of virtual time in a loss-free network".into());
     }
+    // 1 run in 3 (own random stream): *another info hash afterwards* - every peer (the Byzantine ones too: their
+    // forgeries concern the first info hash only) holds authentic announcements for a second info hash, which
+    // the reader looks up after everything above. What surfaces must be signed for THAT info hash: nothing of
+    // an earlier, rejected response may ride along.
+    let mut srng = Rng::new(crate::rng::key(ctx.seed, &[crate::rng::tag("c02-second-info-hash")]));
+    if report.violation.is_none() && srng.chance(1, 3) {
+        let ih_b: Id = srng.id();
+        let anns_b: Vec<([u8; 32], u64, [u8; 64])> = (0..srng.usize(1, 4))
+            .map(|i| {
+                let k = krpc::signing_key(srng.bytes(32).try_into().unwrap());
+                let t = wall_now + 1000 + i as u64;
+                (k.verifying_key().to_bytes(), t, krpc::sign(&k, &krpc::signed_announce_signable(&ih_b, t)))
+            })
+            .collect();
+        for i in 0..n_peers {
+            let a = anns_b.clone();
+            rawnet.with_peer(i, |p| {
+                p.signed.insert(ih_b, a);
+            });
+        }
+        let op = sim.get_signed_peers(reader, ih_b);
+        sim.run_ops(&[op], sim.now() + 120 * SEC);
+        if let Some(Outcome::SignedPeers(batches)) = sim.take_outcome(op) {
+            let mut n_ok = 0;
+            'b: for (_, batch) in &batches {
+                for (k, t, sg) in batch {
+                    if !krpc::verify(k, &krpc::signed_announce_signable(&ih_b, *t), sg) {
+                        report.violate("forged-signed-peer", "signed-announce-bad-signature", format!("get_signed_peers of a second info hash {} yielded an announcement (key {}, t {t}) whose signature does not verify for that info hash{}", hex8(&ih_b), krpc::hex(&k[..8]), if krpc::verify(k, &krpc::signed_announce_signable(&info_hash, *t), sg) { " - it was signed for the info hash looked up earlier" } else { "" }));
+                        break 'b;
+                    }
+                    n_ok += 1;
+                }
+            }
+            if n_ok == 0 && report.violation.is_none() {
+                report.violate("over-rejection", "authentic-signed-peers-not-returned", "get_signed_peers of a second info hash yielded none of the authentic announcements every peer holds".into());
+            }
+        }
+        report.probe("second_info_hash_reads", 1);
+    }
     // 1 run in 60 (own random stream): a *veteran tail* - the reader goes on to look up 1030..1100 targets nobody
     // holds anything for (rolling its cache of the last 1000 lookups, whose oldest entries are the successful
     // reads above) and then asks the most recent 150 of them again, newest first. Nothing authentic exists for
